@@ -309,7 +309,8 @@ TEXT.update({
 # assume / guarantee (mmcheck/props.py OBSERVERS): said once here, appended to the level text of each observer
 _DEP = (' Assume/guarantee: the schemas above are judged on entry states in which every container satisfies the '
         'invariant (live prefix, len <= N, keys pairwise unequal); the check therefore also interprets the mutating '
-        'roots (insert*, remove*, retain, clear, drain, entry API, bulk constructors) and counts a REFUTED invariant '
+        'roots (insert*, remove*, retain, clear, drain, entry API, bulk constructors; also those of the serde build: '
+        'the deserialisation visitors) and counts a REFUTED invariant '
         'rule at one of their exits (INV, ESC-own, ESC-user, APPEND-AFTER-MISS) as a violation of this property.')
 for _p in ('C08', 'C09', 'C10', 'C14', 'C15', 'C19', 'C20'):
     TEXT[_p]['level'] = TEXT[_p]['level'] + _DEP
